@@ -92,6 +92,10 @@ def gen_model_spec(rng) -> dict:
             "spend": [rng.choice([0.0, 50.0, 100.0, 200.0, 400.0]), rng.choice([50.0, 100.0, 300.0])],
             "unit_cost": rng.choice([1.0, 2.0, 5.0]),
         }
+        # every third program carries a capacity constraint below what its spending would buy (decided from the name and spending, so the random stream is unchanged)
+        d_ = spec["progs"][name]
+        if (i + int(d_["spend"][1])) % 3 == 0:
+            d_["capacity"] = 0.25 * d_["spend"][1] / d_["unit_cost"]
     for p in pops:
         treat = {n: rng.choice([0.4, 0.6, 0.9]) for n, d in spec["progs"].items() if d["target_comps"] == ["inf"] and p in d["target_pops"]}
         prev = {n: rng.choice([0.01, 0.03, 0.06]) for n, d in spec["progs"].items() if d["target_comps"] == ["sus"] and p in d["target_pops"]}
@@ -123,6 +127,8 @@ def build_generated(spec: dict):
         prog.spend_data = at.TimeSeries([2015.0, 2018.0], [float(x) for x in d["spend"]], units="$/year")
         prog.unit_cost = at.TimeSeries([2015.0], [float(d["unit_cost"])], units="$/person/year")
         prog.capacity_constraint = at.TimeSeries(units="people/year")
+        if d.get("capacity") is not None:   # a constraint that actually limits the coverage reached with the spending above
+            prog.capacity_constraint = at.TimeSeries([2015.0], [float(d["capacity"])], units="people/year")
         prog.saturation = at.TimeSeries(units="N.A.")
     for par, pop, progs, baseline in spec["covouts"]:
         pg.covouts[(par, pop)] = at.programs.Covout(par, pop, dict(progs), baseline=baseline)
